@@ -18,6 +18,10 @@ open Uquic.Spec.H3FieldsMon (requestRules responseRules)
 
 abbrev Field := List Nat × List Nat
 
+/-- every source shape the generated facts depend on was recognised by gofacts (a changed shape leaves
+    a fallback value and a message here, and this theorem fails) -/
+theorem facts_extracted : extractionProblems = [] := by decide
+
 /-! ## 1. accept_sound -/
 
 /-- rejection class of a result (`none` = accepted) -/
@@ -33,7 +37,7 @@ def errOf {α} : Except Err α → Option Err
 theorem accept_sound (ext : List Nat → Bool) (isReq : Bool) (lim : Int) (hlim : 0 ≤ lim) (fs : List Field) (h : Hdr)
     (hp : parseHeaders ext isReq lim fs = .ok h) : WellFormed isReq lim fs := by
   obtain ⟨s, inv, _, hf⟩ := parse_ok_inv ext isReq lim fs false h hp
-  refine ⟨inv.names, inv.values, inv.noconn, inv.te, inv.known, inv.first, ?_, ?_, ?_, ?_⟩
+  refine ⟨inv.names, inv.values, inv.noconn, inv.te, inv.known, inv.first, ?_, ?_, ?_, ?_, ?_⟩
   · unfold PseudoUnique; rw [← inv.seen]; exact inv.nodup
   · intro f hf' g hg hfn hgn
     cases hr : s.readCL with
@@ -47,6 +51,7 @@ theorem accept_sound (ext : List Nat → Bool) (isReq : Bool) (lim : Int) (hlim 
       rcases finish_cl s h hf with he | ⟨_, hne, hd, _⟩
       · rw [hr] at he; cases he
       · exact ⟨hne, hd⟩
+  · exact fits_of_ok ext isReq lim fs h hp
   · show Uquic.Spec.H3Fields.sectionSize fs ≤ lim
     by_cases hfs : fs = []
     · subst hfs; simpa [Uquic.Spec.H3Fields.sectionSize] using hlim
@@ -102,28 +107,54 @@ theorem malformed_rejected (ext : List Nat → Bool) (isReq : Bool) (lim : Int) 
 
 /-! ## 1b. completeness: the accepted sections are characterised exactly -/
 
-/-- parseHeaders accepts EXACTLY the sections that satisfy the reference predicate and whose
-    Content-Length fits 63 bits. -/
+/-- parseHeaders accepts EXACTLY the sections that satisfy the reference predicate (which includes:
+    Content-Length fits a non-negative int64). -/
 theorem accept_iff (ext : List Nat → Bool) (isReq : Bool) (lim : Int) (hlim : 0 ≤ lim) (fs : List Field) :
-    (∃ h, parseHeaders ext isReq lim fs = .ok h) ↔ (WellFormed isReq lim fs ∧ ClFits fs) := by
+    (∃ h, parseHeaders ext isReq lim fs = .ok h) ↔ WellFormed isReq lim fs := by
   constructor
   · rintro ⟨h, hp⟩
-    exact ⟨accept_sound ext isReq lim hlim fs h hp, fits_of_ok ext isReq lim fs h hp⟩
-  · rintro ⟨wf, hfit⟩
-    exact accept_complete_of_wf ext isReq lim fs wf hfit
+    exact accept_sound ext isReq lim hlim fs h hp
+  · exact accept_complete_of_wf ext isReq lim fs
 
-/-- every well-formed section (full reference predicate) with a Content-Length below 2^63 is accepted -/
+/-- every well-formed section is accepted -/
 theorem accept_complete (ext : List Nat → Bool) (isReq : Bool) (lim : Int) (fs : List Field)
-    (wf : WellFormed isReq lim fs) (hfit : ClFits fs) : ∃ h, parseHeaders ext isReq lim fs = .ok h :=
-  accept_complete_of_wf ext isReq lim fs wf hfit
+    (wf : WellFormed isReq lim fs) : ∃ h, parseHeaders ext isReq lim fs = .ok h :=
+  accept_complete_of_wf ext isReq lim fs wf
+
+/-- the Content-Length handed to net/http is the decimal value of the field and a non-negative int64
+    (or -1 when there is no such field) — never a wrapped negative number -/
+theorem content_length_faithful (ext : List Nat → Bool) (isReq : Bool) (lim : Int) (fs : List Field) (h : Hdr)
+    (hp : parseHeaders ext isReq lim fs = .ok h) :
+    (∀ f ∈ fs, f.1 = nContentLength → h.contentLength = (decVal f.2 : Int) ∧ 0 ≤ h.contentLength ∧ h.contentLength < 2 ^ 63) ∧
+    ((∀ f ∈ fs, f.1 ≠ nContentLength) → h.contentLength = -1) := by
+  obtain ⟨s, inv, _, hf⟩ := parse_ok_inv ext isReq lim fs false h hp
+  constructor
+  · intro f hfm hfn
+    have hr : s.readCL = true := by
+      cases hr : s.readCL with
+      | true => rfl
+      | false => exact absurd hfn ((inv.clNone hr).1 f hfm)
+    have hall : ∀ g ∈ fs, g.1 = nContentLength → g.2 = f.2 := by
+      intro g hg hgn; rw [inv.clSome hr g hg hgn, inv.clSome hr f hfm hfn]
+    have hv := ((parse_cl_result ext isReq lim fs h hp f.2 hall).1 ⟨f, hfm, hfn⟩).1
+    have hfit := fits_of_ok ext isReq lim fs h hp f hfm hfn
+    refine ⟨hv, by rw [hv]; omega, ?_⟩
+    rw [hv]; exact_mod_cast hfit
+  · intro hno
+    have hr : s.readCL = false := by
+      cases hr : s.readCL with
+      | false => rfl
+      | true => obtain ⟨g, hg, hg1, _⟩ := inv.clWitness hr; exact absurd hg1 (hno g hg)
+    unfold finish at hf
+    simp only [hr, Bool.false_eq_true, if_false] at hf
+    cases hf; rfl
 
 /-- the hypotheses of `accept_complete` are satisfiable by a non-trivial section -/
 example : WellFormed true 1000 [(nMethod, B "POST"), (nScheme, B "https"), (nAuthority, B "a"), (nPath, B "/x"),
       (B "cookie", B "a=b"), (nContentLength, B "12"), (nTe, vTrailers)] ∧
-    ClFits [(nMethod, B "POST"), (nScheme, B "https"), (nAuthority, B "a"), (nPath, B "/x"),
-      (B "cookie", B "a=b"), (nContentLength, B "12"), (nTe, vTrailers)] :=
-  ⟨⟨by decide, by decide, by decide, by decide, by decide, by decide, by decide, by decide, by decide, by decide⟩,
-   by unfold ClFits; decide⟩
+    errOf (parseHeaders (fun _ => true) true 1000 [(nContentLength, B "9223372036854775808")]) = some .clInvalid :=
+  ⟨⟨by decide, by decide, by decide, by decide, by decide, by decide, by decide, by decide, by decide, by decide, by decide⟩,
+   by decide⟩
 
 /-! ## 4. writer_parser_agree -/
 
@@ -158,8 +189,10 @@ theorem writer_parser_agree (ext : List Nat → Bool) (ua : List Nat) (w : WReq)
   obtain ⟨f1, f2, f3⟩ := fmtNat_spec w.contentLength.toNat
   have hdig : ∀ b ∈ fmtNat w.contentLength.toNat, Uquic.Spec.H3Fields.isDigitByte b = true :=
     fun b hb => List.all_eq_true.mp f2 b hb
+  have hclfit : decVal (fmtNat w.contentLength.toNat) < 2 ^ 63 := by
+    rw [f3]; have := hv.cl; omega
   have wf : WellFormed true lim (pseudoPart w host (emittedPath w host) ++ regularPart ua w) :=
-    wf_of_parts true lim _ _ (fmtNat w.contentLength.toNat) hP1 hP2 hR ⟨f1, hdig⟩ hlim
+    wf_of_parts true lim _ _ (fmtNat w.contentLength.toNat) hP1 hP2 hR ⟨f1, hdig⟩ hclfit hlim
   -- every Content-Length field of the section is the emitted one
   have hall : ∀ f ∈ pseudoPart w host (emittedPath w host) ++ regularPart ua w, f.1 = nContentLength →
       f.2 = fmtNat w.contentLength.toNat := by
@@ -169,12 +202,7 @@ theorem writer_parser_agree (ext : List Nat → Bool) (ua : List Nat) (w : WReq)
     · rcases hR f hf with h | ⟨_, h⟩
       · exact absurd hn h.2.2.2.2.2.2
       · exact h
-  have hfit : ClFits (pseudoPart w host (emittedPath w host) ++ regularPart ua w) := by
-    intro f hf hn
-    rw [hall f hf hn, f3]
-    have := hv.cl
-    omega
-  obtain ⟨h, hp⟩ := accept_complete ext true lim _ wf hfit
+  obtain ⟨h, hp⟩ := accept_complete ext true lim _ wf
   refine ⟨wf, h, host, hp, hpuny, ?_⟩
   obtain ⟨vp, vm, va, vpr, vs, vst⟩ := parse_pseudo_values ext true lim _ false h hp
   have hRnp : ∀ g ∈ regularPart ua w, isPseudoName g.1 = false := by
